@@ -155,7 +155,11 @@ func c18Messages(kind string, seed uint64, budget int, lg *caseLog) c18Report {
 			nd.Mem.Restore(m.Snaps[v])
 			stateName := NodeState(nd, g.DkgRoundID)
 			var muts []mutant
-			for _, jm := range mutateJSON(g.Data, r, budget) {
+			second := 0
+			if budget > 1000 {
+				second = 40 // thorough: second-order mutants
+			}
+			for _, jm := range mutateJSONDeep(g.Data, r, budget, second) {
 				mm := *g
 				mm.Data = jm.Data
 				muts = append(muts, mutant{"data:" + jm.Label, resign(mm, w)})
